@@ -14,7 +14,8 @@
 //!   check_default          `T::default()` and `T::new()` behave like the object of a fresh case: on an
 //!                          empty reader they report end of stream and offset 0
 //!
-//! Oracle lines: `C20 …` (a clone diverges from / is disturbed by the original), `C05 …` is left to the
+//! Oracle lines: `C08 …` / `C06 …` (a clone diverges from / is disturbed by the original: the clone's own chunk /
+//! record sequence no longer is what the property demands of a chunker / reader on that stream); `C05` is left to the
 //! debug-build poisoning of freed chunks (a dangling carry-over shows up as a content difference) and the
 //! end-of-case leak check of `main.rs` (`C10`).
 use super::*;
@@ -90,7 +91,7 @@ impl ChunkerExec {
         so.tags.push("chunker_fork_pump".into());
         if so.obs.last() != Some(&line) {
             so.violations.push(format!(
-                "C20 a cloned StreamChunker diverges from the original on the same input: clone `{}`, original `{}`",
+                "C08 a cloned StreamChunker does not continue the stream like the original on the same input (C20-style independence): clone `{}`, original `{}`",
                 line,
                 so.obs.last().cloned().unwrap_or_default()
             ));
@@ -180,7 +181,7 @@ impl ReaderExec {
         so.tags.push("reader_fork_next".into());
         if so.obs.last() != Some(&line) {
             so.violations.push(format!(
-                "C20 a cloned StreamReader diverges from the original on the same input: clone `{}`, original `{}`",
+                "C06 a cloned StreamReader does not continue the stream like the original on the same input (C20-style independence): clone `{}`, original `{}`",
                 line,
                 so.obs.last().cloned().unwrap_or_default()
             ));
